@@ -5,7 +5,7 @@
     and layout generator streams, whole-file byte comparison through BaseCode.v). *)
 From Coq Require Import String.
 From Cvg Require Import Base GoTypes Dump Options Front Builder Gen Pipeline BaseCode.
-From Cvg.proofs Require Import BuilderProofs FrontProofs BaseCodeProofs.
+From Cvg.proofs Require Import BuilderProofs FrontProofs BaseCodeProofs CutProofs.
 Open Scope N_scope.
 
 Theorem C03_every_method_parsed :
@@ -56,3 +56,19 @@ Theorem C03_two_markers_two_groups :
       = l1 ++ [marker_comment m mn] :: l2 ++ [marker_comment m mx] :: l3 /\ gs = l1 ++ l2 ++ l3.
 Proof. exact two_markers_two_groups. Qed.
 Print Assumptions C03_two_markers_two_groups.
+
+(** Independence from what lies between the braces: once printed, the interface is cut
+    out whatever its size — the second marker may follow on the same line (a one-line
+    interface with one very short method) or any number of lines later, with any bytes in
+    between (comments, blank lines, further methods) as long as the marker itself occurs
+    only twice. *)
+Theorem C03_cut_independent_of_interface_size :
+  forall m pre L X post,
+    m <> [] -> no_nl m -> L <> [] -> no_nl L ->
+    (pre = [] \/ exists p, pre = p ++ [10]) ->
+    (forall k, occ m (pre ++ L ++ m ++ X ++ m ++ post) k = true ->
+               k = (List.length pre + List.length L)%nat \/
+               k = (List.length pre + (List.length L + List.length m + List.length X))%nat) ->
+    cut m (pre ++ L ++ m ++ X ++ m ++ post) = pre ++ m ++ post.
+Proof. exact cut_law. Qed.
+Print Assumptions C03_cut_independent_of_interface_size.
